@@ -126,6 +126,11 @@ func errUnhashable(msg any) (runtimeError, bool) {
 
 // newPanic returns a new *PanicError with the given error message.
 func (vm *VM) newPanic(msg any) *PanicError {
+	if vm.fn == nil {
+		// A native function, deferred directly, has panicked while the
+		// goroutine was already panicking.
+		return &PanicError{message: msg}
+	}
 	// vm.pc has already been advanced past the instruction that panicked.
 	info := vm.fn.InstructionInfo[vm.pc-1]
 	return &PanicError{
@@ -150,7 +155,13 @@ func (vm *VM) convertPanic(msg any) error {
 			return err
 		}
 	}
-	switch op := vm.fn.Body[vm.pc-1].Op; op {
+	// A native function deferred directly is called by nextCall: during
+	// a return (OpReturn), or with vm.fn == nil if the goroutine is panicking.
+	op := OpCallNative
+	if vm.fn != nil {
+		op = vm.fn.Body[vm.pc-1].Op
+	}
+	switch op {
 	case OpAddr, OpIndex, -OpIndex, OpIndexRef, -OpIndexRef, OpSetSlice, -OpSetSlice:
 		switch err := msg.(type) {
 		case runtime.Error:
@@ -176,7 +187,7 @@ func (vm *VM) convertPanic(msg any) error {
 			break
 		}
 		fallthrough
-	case OpCallNative:
+	case OpCallNative, OpReturn:
 		switch msg := msg.(type) {
 		case runtimeError:
 			break
